@@ -46,6 +46,21 @@ func c01Expect(res Results, toks []vTok, name, mtype string, start, n int) strin
 func c01Embedded(c *vrep.Ctx) {
 	t, _ := strconv.ParseFloat(c.Param("t", "0.8"), 64)
 	cl := vEmbeddedCached(t)
+	if c.Param("history", "") == "normalize" {
+		// the classifier has been used before: Normalize calls on a text with every variant spelling the
+		// tokenizer knows, on a few documents, and on 3 000 unseen words (Normalize interns what it reads)
+		cl = vEmbedded(t)
+		cl.Normalize([]byte("the licence of this programme and the organisation's favour whilst a court judgment acknowledgement authorised centre colour labelled behaviour honour recognise analyse cancelled catalogue defence dialogue fulfil grey initialise jewellery modelling neighbour offence optimise practise sceptical speciality theatre travelling sub-licence sub license non-commercial per cent copyright owner copyright holder"))
+		for _, d := range vDocPool(6) {
+			cl.Normalize(d.Bytes)
+		}
+		var sb strings.Builder
+		for i := 0; i < 3000; i++ {
+			fmt.Fprintf(&sb, "Zqhist%c%c%c ", 'a'+i%26, 'a'+(i/26)%26, 'a'+i/676)
+		}
+		cl.Normalize([]byte(sb.String()))
+		c.Bound("history", "Normalize calls before the first Match")
+	}
 	vCheckOOV(cl, 1000)
 	docs := vCorpusFiles()
 	nctx := c.Pick(1, len(c01Contexts))
